@@ -680,6 +680,12 @@ class ExecS(Exec):
             return "seq", ("plain", v)
         if isinstance(v, StrV):
             return "seq", ("str", v)
+        if isinstance(v, ObjV):
+            h = self.world.method_handler(v.cls, "__iter__")
+            if h is not None:
+                r = h(self, st, v, [], {}, it, False)
+                if isinstance(r, SeqV):
+                    return "seq", ("plain", r)
         raise Unsupported(f"iteration over {v!r} at line {getattr(it, 'lineno', '?')}")
 
     def unroll(self, s, st, items):
